@@ -100,6 +100,18 @@ func execCacheOnce(ops []string) (obs []string, late bool) {
 		case "clear":
 			c.Clear()
 			obs = append(obs, cacheState(c))
+		case "clearfire":
+			// Clear while an expiry timer has already fired and waits for the lock
+			c.VerifClearThenFire(m["k"])
+			obs = append(obs, cacheState(c))
+		case "staleget":
+			// a reader that looked the item up before another reader's load evicted it
+			v, err := c.VerifStaleGet(m["k"], m["e"], atoi(m["n"]))
+			o := "val:" + hexs(v)
+			if err != nil {
+				o = "err"
+			}
+			obs = append(obs, o+" "+cacheState(c))
 		default:
 			obs = append(obs, "unknown-op")
 		}
@@ -151,6 +163,22 @@ func genCache(r *Rng, n int, tier string) []Case {
 			}
 		}
 		cases = append(cases, Case{ID: fmt.Sprintf("cache-%d", i+1), Ops: ops})
+	}
+	// Interleavings of concurrent users, emulated step by step: a timer that fires across a Clear, a reader
+	// whose item is evicted between its lookup and its read.
+	for i := 0; i < n/10+4; i++ {
+		mx := r.Pick(4, 6, 8, 1<<20)
+		ops := []string{fmt.Sprintf("open max=%d ttl=0", mx)}
+		for j := r.Range(1, 3); j > 0; j-- {
+			ops = append(ops, fmt.Sprintf("get k=%s v=%d s=%d", keys[r.Intn(3)], r.Range(1, 3), r.Intn(250)))
+		}
+		if r.Chance(50) {
+			ops = append(ops, "clearfire k="+keys[r.Intn(3)])
+		} else {
+			ops = append(ops, fmt.Sprintf("staleget k=%s e=%s n=%d", keys[r.Intn(3)], keys[3+r.Intn(2)], r.Pick(1, mx, mx-1, 3)))
+		}
+		ops = append(ops, fmt.Sprintf("get k=%s v=2 s=7", keys[r.Intn(5)]))
+		cases = append(cases, Case{ID: fmt.Sprintf("cache-race-%d", i+1), Ops: ops})
 	}
 	// Real TTL: 125 ms, steps of 50 ms, so every expiry decision has a 25 ms margin (a run that is late by more than 12 ms is repeated).
 	nt := 4
